@@ -224,37 +224,11 @@ Theorem quote_roundtrip :
     read sh (append (make_string_constant sh s) rest) = Some (s, rest).
 Proof. intros sh. apply quote_roundtrip_generic, table_ok_all. Qed.
 
-(** Every string is admissible for fish and zsh. *)
+(** Every string is admissible for bash (since 90236c3), fish and zsh. *)
 Lemma admissible_fish s : admissible Fish s.
 Proof. unfold admissible. induction s; cbn; auto. Qed.
 Lemma admissible_zsh s : admissible Zsh s.
 Proof. unfold admissible. induction s; cbn; auto. Qed.
 
-(** The hazard classes are exact: a hazardous pair never reads back (so the classes are not
-    wider than the defect). *)
-Definition hazards_exact (sh : shell) : bool :=
-  forallb (fun c => forallb (fun o => implb (hazard sh c o) (negb (pair_ok sh c o))) all_followers) all_bytes.
-Lemma hazards_exact_bash : hazards_exact Bash = true. Proof. vm_compute. reflexivity. Qed.
-
-(** bash: the admissible strings are exactly those without a backslash before DQ, backtick,
-    dollar, backslash, newline or the end. *)
-Fixpoint has_backslash_hazard (s : string) : bool :=
-  match s with
-  | EmptyString => false
-  | String c t =>
-      (Ascii.eqb c c_bs &&
-       match t with
-       | EmptyString => true
-       | String d _ => is_one_of d [c_dq; c_bt; c_dollar; c_bs; c_nl]
-       end) || has_backslash_hazard t
-  end.
-
-Lemma admissible_bash_iff s : admissible Bash s <-> has_backslash_hazard s = false.
-Proof.
-  unfold admissible. induction s as [|c t IH]; [cbn; tauto|].
-  cbn [admissibleb has_backslash_hazard hazard].
-  assert (E : match shd t with None => true | Some d => is_one_of d [c_dq; c_bt; c_dollar; c_bs; c_nl] end
-              = match t with EmptyString => true | String d _ => is_one_of d [c_dq; c_bt; c_dollar; c_bs; c_nl] end)
-    by (destruct t; reflexivity).
-  rewrite E. rewrite andb_true_iff, negb_true_iff, orb_false_iff. tauto.
-Qed.
+Lemma admissible_bash s : admissible Bash s.
+Proof. unfold admissible. induction s; cbn; auto. Qed.
